@@ -99,6 +99,8 @@ def qr_blocks(ctx):
     lines, cases = [], []
     for n, reps in sizes:
         fams = [f for f in families(ctx.rng, n) if not np.any(np.abs(f[1]) < 1e-9)]
+        if n <= 3:   # a reflection whose elimination meets vanishing pivots: diagonal and permutation-like factors
+            fams.insert(1, ("reflection_uniform", (np.eye(2 ** n) - 2 * np.ones((2 ** n, 2 ** n)) / 2 ** n).astype(complex)))
         for rep in range(reps):
             if rep < len(fams):
                 fam, U = fams[rep]
